@@ -5,6 +5,7 @@ import (
 	"errors"
 	"fmt"
 	"io"
+	"strings"
 	"sync"
 	"sync/atomic"
 	"time"
@@ -23,6 +24,9 @@ type c14Case struct {
 	J     int    // Next calls before the ending event
 	R     int    // which scan request is hit (1-based)
 	Renew bool
+	// Pause: the caller waits this long between Next calls (longer than the
+	// renew interval, so that renewals happen wherever the scan is positioned)
+	Pause time.Duration
 }
 
 type nextRec struct {
@@ -43,7 +47,7 @@ func init() {
 			"RPC error on the r-th scan request, retryable error on the r-th request, server says more_results=false at " +
 			"the r-th response}, with and without scanner renewal; (j, r) drawn over the whole length of the scan. Judged: " +
 			"the (result, error) sequence of Next against the automaton rows* (error)? EOF*, rows being a prefix of the " +
-			"model, Close latency/idempotence, and conservation opened = exhausted + closed per scan on the simulated " +
+			"model, cells delivered before a failing request = cells handed out (the error carries the row being assembled), Close latency/idempotence, and conservation opened = exhausted + closed per scan on the simulated " +
 			"servers. distinct = (scan case, ending, j, r); all non-trivial",
 		Assumptions: []string{"a server-side scanner counts as released when the server closed it (region exhausted, more_results=false) or a close request for it arrived"},
 		Plan: func(tier string) fw.Plan {
@@ -55,7 +59,7 @@ func init() {
 		Floors: func(tier string) map[string]int64 {
 			return map[string]int64{"scans": 500, "end_exhaust": 30, "end_close-after": 50, "end_cancel-between": 50, "end_cancel-during": 30,
 				"end_rpc-error": 30, "end_rpc-retryable": 30, "end_early-no-more": 30, "scanners_opened": 800, "close_requests_seen": 100,
-				"errors_reported": 50, "enumerated_ending_points": 60}
+				"errors_reported": 50, "enumerated_ending_points": 60, "cell_conservation_checks": 20}
 		},
 		Run: runC14,
 	})
@@ -87,6 +91,10 @@ func runC14(c *fw.Ctx) {
 						cs := c14Case{Scan: sc, End: end, J: j, R: rr, Renew: k%3 == 0}
 						if cs.Renew {
 							cs.Scan.Renew = 15 * time.Millisecond
+							if k%2 == 0 { // a slow consumer: renewals between any two Next calls
+								cs.Scan.Renew = 4 * time.Millisecond
+								cs.Pause = 10 * time.Millisecond
+							}
 						}
 						id := fmt.Sprintf("enum-%d", k)
 						c.Begin(id, cs)
@@ -111,6 +119,10 @@ func runC14(c *fw.Ctx) {
 		if r.Intn(4) == 0 {
 			cs.Renew = true
 			cs.Scan.Renew = 15 * time.Millisecond
+			if r.Intn(2) == 0 {
+				cs.Scan.Renew = 4 * time.Millisecond
+				cs.Pause = 10 * time.Millisecond
+			}
 		}
 		id := fmt.Sprintf("scan-%d", i)
 		c.Begin(id, cs)
@@ -202,11 +214,15 @@ func c14Run(c *fw.Ctx, id string, cs c14Case, model []modelRow, opid string) {
 	next := func() (done bool) {
 		var res *hrpc.Result
 		var err error
+		if cs.Pause > 0 && len(seq) > 0 {
+			time.Sleep(cs.Pause)
+		}
 		if !within(20*time.Second, func() { res, err = scanner.Next() }) {
 			stuck = true
 			return true
 		}
-		rec := nextRec{HasRes: res != nil && len(res.Cells) > 0}
+		// (with partial results allowed, a fragment without cells is a result)
+		rec := nextRec{HasRes: res != nil && (len(res.Cells) > 0 || (cs.Scan.Partials && res.Partial))}
 		if err != nil {
 			rec.Err = err.Error()
 			rec.IsEOF = err == io.EOF
@@ -336,6 +352,29 @@ func c14Run(c *fw.Ctx, id string, cs c14Case, model []modelRow, opid string) {
 	if f, d := compareScan(got, model, cs.Scan.Partials, !full, cs.Scan.Partials || errs > 0 || cs.End == "close-after"); f != "" {
 		c.Violate(id, f, d+" :: "+cs.End+" "+cs.Scan.sig(), cs)
 	}
+	// an error comes together with the row assembled so far: when the r-th request
+	// fails, every earlier response has been consumed completely, so the cells the
+	// servers delivered for this scan and the cells Next handed out must be equal
+	if cs.End == "rpc-error" && atomic.LoadInt32(&faulted) == 1 && errs == 1 {
+		var sent, handed int
+		for _, e := range cl.Log.Snapshot() {
+			if e.Kind == "scan-reply" && e.OpID == opid {
+				if i := strings.Index(e.Info, "cells="); i >= 0 {
+					var n int
+					fmt.Sscanf(e.Info[i:], "cells=%d", &n)
+					sent += n
+				}
+			}
+		}
+		for _, r := range got {
+			handed += len(r.Cells)
+		}
+		c.Count("cell_conservation_checks", 1)
+		if sent != handed {
+			c.Violate(id, "scanner:assembled-row-lost", fmt.Sprintf("the servers delivered %d cells before request %d failed, Next handed out %d (the fragments of the row being assembled must come with the error): %s :: %s",
+				sent, cs.R, handed, seqString(seq), cs.Scan.sig()), cs)
+		}
+	}
 	// conservation on the servers: poll until every scanner of this scan is gone
 	deadline := time.Now().Add(3 * time.Second)
 	var left []uint64
@@ -363,6 +402,31 @@ func c14Run(c *fw.Ctx, id string, cs c14Case, model []modelRow, opid string) {
 	}
 	c.Count("scanners_opened", opened)
 	c.Count("close_requests_seen", closedReq)
+	if len(left) == 0 {
+		// scanners the servers cannot attribute to this scan (opened by a request
+		// that did not carry the scan's attributes): the cluster serves nothing else
+		for i := 0; i < 100; i++ {
+			if left = cl.OpenScanners(); len(left) == 0 {
+				break
+			}
+			time.Sleep(5 * time.Millisecond)
+		}
+		if len(left) > 0 {
+			var how []string
+			for _, e := range cl.Log.Snapshot() {
+				if e.Kind == "scanner-open" {
+					for _, id := range left {
+						if uint64(e.N) == id {
+							how = append(how, fmt.Sprintf("scanner %d opened on %s region %q start row %q (%s)", id, e.Server, e.Region, e.Row, e.Info))
+						}
+					}
+				}
+			}
+			c.Violate(id, "scanner:leaked-server-scanner:opened-without-scan-attributes", fmt.Sprintf("%d region scanner(s) still open on the servers after the scan ended (%s j=%d r=%d renew=%v pause=%v): %s: %s",
+				len(left), cs.End, cs.J, cs.R, cs.Scan.Renew, cs.Pause, strings.Join(how, "; "), cs.Scan.sig()), cs)
+			left = nil
+		}
+	}
 	if len(left) > 0 {
 		f := "scanner:leaked-server-scanner"
 		if cs.End == "cancel-during" && atomic.LoadInt32(&heldOpen) == 1 && len(left) == 1 {
